@@ -1,6 +1,74 @@
 // Contract harnesses for ntp-proto/src/packet/mac.rs (child module: sees private items).
-#![allow(unused_imports)]
+// Properties: C23/C22 (Mac::deserialize is total), C24 (MAC round trip).
+#![allow(unused_imports, dead_code)]
 use super::*;
+use std::io::Cursor;
+
+/// Mac::deserialize: no panic for every input of length <= the bound (loop-free);
+/// Ok <=> 4 <= len <= 24; keyid == first four bytes (big endian); mac == the remaining bytes.
+fn mac_deserialize_total<const N: usize>() {
+    let data: [u8; N] = kani::any();
+    let len: usize = kani::any();
+    kani::assume(len <= N);
+    let d = &data[..len];
+    match Mac::deserialize(d) {
+        Ok(m) => {
+            assert!(len >= 4 && len <= Mac::MAXIMUM_SIZE);
+            assert!(m.keyid == u32::from_be_bytes([d[0], d[1], d[2], d[3]]));
+            assert!(m.mac.len() == len - 4);
+            let i: usize = kani::any();
+            kani::assume(i < len - 4);
+            assert!(m.mac[i] == d[4 + i]);
+        }
+        Err(ParsingError::IncorrectLength) => assert!(len < 4 || len > Mac::MAXIMUM_SIZE),
+        Err(_) => panic!("unexpected error kind"),
+    }
+    kani::cover!(len == 24, "largest accepted reachable");
+    kani::cover!(len == N, "largest input reachable");
+}
+// loop-free; the bound only limits the explored slice length (1100 covers the 1024-byte receive
+// buffer; thorough 4100 covers C23's 0..4096)
+#[kani::proof]
+fn c23_b_mac_deserialize_total() {
+    mac_deserialize_total::<1100>();
+}
+#[kani::proof]
+fn c23_tb_mac_deserialize_total() {
+    mac_deserialize_total::<4100>();
+}
+#[kani::proof]
+fn c23_canary_mac_accepts_25() {
+    let data: [u8; 25] = kani::any();
+    assert!(Mac::deserialize(&data).is_ok());
+}
+
+/// C24: every accepted MAC re-encodes to exactly the input bytes, and decodes again to the same value.
+#[kani::proof]
+#[kani::unwind(26)]
+fn c24_p_mac_roundtrip() {
+    let data: [u8; 24] = kani::any();
+    let len: usize = kani::any();
+    kani::assume(len <= 24);
+    let d = &data[..len];
+    if let Ok(m) = Mac::deserialize(d) {
+        let mut out = [0u8; 24];
+        let mut cur = Cursor::new(&mut out[..]);
+        assert!(m.serialize(&mut cur).is_ok());
+        let n = cur.position() as usize;
+        assert!(n == len);
+        assert!(&out[..n] == d);
+        let m2 = Mac::deserialize(&out[..n]).unwrap();
+        assert!(m2 == m);
+        // a buffer that is too short gives an error, not a panic
+        let short: usize = kani::any();
+        kani::assume(short < len);
+        let mut out2 = [0u8; 24];
+        let mut cur2 = Cursor::new(&mut out2[..short]);
+        assert!(m.serialize(&mut cur2).is_err());
+    }
+    kani::cover!(len == 24, "reachable");
+    kani::cover!(len == 4, "crypto-NAK sized reachable");
+}
 
 #[cfg(all(kani, test))]
 mod replay {
